@@ -71,6 +71,45 @@ class PlainMapping(collections.abc.Mapping):
         return len(self._d)
 
 
+class RaisingMapping(collections.abc.Mapping):
+    """a mapping that delivers its first `n` items and then raises Boom - from `__getitem__` (style 0) or from the
+    iterator of its keys (style 1); it has one more key than it delivers"""
+
+    def __init__(self, items, extra_key, style):
+        self._items = list(items)
+        self._extra = extra_key
+        self._style = style
+        self._served = 0
+
+    def __getitem__(self, k):
+        for kk, v in self._items:
+            if kk == k:
+                if self._served >= len(self._items):
+                    raise Boom('mapping failed')
+                self._served += 1
+                return v
+        raise Boom('mapping failed')
+
+    def __iter__(self):
+        for k, _ in self._items:
+            yield k
+        if self._style:
+            raise Boom('mapping failed')
+        yield self._extra
+
+    def __len__(self):
+        return len(self._items) + 1
+
+    def keys(self):         # a plain iterator over the keys (not a KeysView: no len, one pass)
+        return iter(self)
+
+
+# malformed items inside an iterable of pairs (what comes after them is never reached)
+MALFORMED = [lambda: ('lonely',), lambda: 5, lambda: ('a', 'b', 'c'), lambda: ([], 1), lambda: None, lambda: ({}, 0)]
+# calls that raise on their first look at the argument: nothing may change
+REJECTS = ['add', 'set', 'del', 'addlist', 'addlist_int', 'pop', 'popall', 'poplast', 'sd', 'upd_none', 'upd_int',
+           'ext_none', 'ext_int', 'ior_int', 'new2', 'upd_pairs_unhashable_first']
+
 MAPPING_FORMS = [dict, collections.OrderedDict, collections.UserDict, lambda d: types.MappingProxyType(dict(d)),
                  PlainMapping, dict]
 _SUBCLASS = {}
@@ -457,6 +496,7 @@ class Ctx:
         self.n = case.get('fs', 0)
         self.none_ok = not _mentions_none(case['ops'])
         self.dflt = DEFAULT
+        self.views = {}
 
     def D(self):
         """the next object to hand in as `default`; results are compared with it by identity"""
@@ -520,7 +560,7 @@ class Ctx:
 def _mentions_none(x):
     """does a history mention the value id of None (or setdefault without a default)?"""
     if isinstance(x, list):
-        if len(x) == 3 and x[0] == 'sd' and x[2] < 0:
+        if len(x) == 3 and x[0] in ('sd', 'fk') and isinstance(x[2], int) and x[2] < 0:
             return True
         return any(_mentions_none(y) for y in x)
     return x == NONE_V and x is not True
@@ -620,13 +660,20 @@ class C01(Property):
               ['eq', ['x', 'td']], ['eq', ['sl']],
               # keyword arguments that collide with the positional argument (they win, and come last)
               ['upd', ['m', [[0, 1]]], [[0, 0]]], ['upd', ['p', 'l', [[0, 1], [1, 1]]], [[0, 0]]]]
+        # round 3: mappings that raise half way, malformed items, rejected calls, fromkeys
+        A += [['upd', ['mx', [[1, 1], [0, 0]]], []], ['ext', ['mx', [[0, 1]]], []], ['ior', ['mx', []]],
+              ['new', ['mx', [[0, 0]]], []], ['upd', ['p', 'y', [[0, 0], [1, 1], [0, 1]]], []],
+              ['ext', ['p', 'y', [[1, 0]]], []], ['new', ['p', 'y', [[0, 1]]], []], ['ior', ['p', 'y', []]],
+              ['rej', 'add'], ['rej', 'upd_none'], ['rej', 'poplast'], ['rej', 'addlist_int'],
+              ['fk', [0, 1, 0], 1], ['fk', [1], -1], ['fk', [], 0]]
         return A
 
     def _core_alphabet(self):
         return [['add', 0, 0], ['add', 0, 1], ['add', 1, 0], ['set', 0, 1], ['set', 1, 1], ['del', 0],
                 ['addlist', 1, 'i', [1, 0]], ['poplast', 0, 0], ['poplast', -1, 0], ['popitem'], ['pop', 1, 1],
                 ['sd', 1, 0], ['upd', ['p', 'l', [[1, 1], [0, 0], [1, 0]]], []], ['upd', ['t'], []],
-                ['ext', ['s'], []], ['cp', 'cc', 't'], ['swap'], ['upd', ['m', [[0, 0], [1, 1]]], []]]
+                ['ext', ['s'], []], ['cp', 'cc', 't'], ['swap'], ['upd', ['m', [[0, 0], [1, 1]]], []],
+                ['upd', ['mx', [[1, 0], [0, 1]]], []]]
 
     def _mk(self, ops, i=0, u=None):
         u = u or ('S', 'I', 'S', 'N', 'F')[i % 5]
@@ -698,7 +745,11 @@ class C01(Property):
             return ['m', self._rmapping(rng, nk, vmax)]
         if for_eq and r < 0.72:
             return ['x', rng.choice(['l', 'n', 'i', 'td', 'td'])]
-        return ['p', 'x' if rng.random() < 0.08 else rng.choice(PAIR_KINDS), self._rpairs(rng, nk, vmax=vmax)]
+        if not for_eq and r < 0.69:
+            return ['mx', self._rmapping(rng, nk, vmax)]
+        q = rng.random()
+        return ['p', 'x' if q < 0.08 else 'y' if (q < 0.14 and not for_eq) else rng.choice(PAIR_KINDS),
+                self._rpairs(rng, nk, vmax=vmax)]
 
     def random_case(self, rng, long=False):
         u = rng.choice(['S', 'S', 'I', 'N', 'F'])
@@ -741,8 +792,12 @@ class C01(Property):
                 ops.append(['poplast', k if rng.random() < 0.6 else -1, rng.randint(0, 1)])
             elif r < 0.70:
                 ops.append(['popitem'])
-            elif r < 0.71:
+            elif r < 0.705:
                 ops.append(['clear'])
+            elif r < 0.715:
+                ops.append(['rej', rng.choice(REJECTS)])
+            elif r < 0.72:
+                ops.append(['fk', [rng.randrange(nk) for _ in range(rng.randint(0, 4))], v if rng.random() < 0.7 or nf else -1])
             elif r < 0.78:
                 ops.append(['cp', rng.choice(COPY_KINDS), rng.choice('st')])
             elif r < 0.82:
@@ -832,6 +887,18 @@ class C01(Property):
                   ['new', ['p', 'x', P], []], ['upd', ['p', 'x', [[3, 1]]], [[0, 0]]]):
             H.append([X, ['add', 0, 0], X])
             H.append([base, X, ['poplast', 0, 1], ['add', 3, 1], X, ['popitem']])
+        # round 3: mappings that raise half way (from __getitem__ / from the key iterator), malformed items of every
+        # kind after a well-formed prefix, calls that must be rejected without touching anything, fromkeys
+        for X in (['upd', ['mx', [[3, 0], [0, 1]]], []], ['upd', ['mx', []], []], ['ext', ['mx', [[0, 2], [3, 1]]], []],
+                  ['ior', ['mx', [[1, 3]]]], ['new', ['mx', [[0, 1]]], []], ['upd', ['mx', [[0, 1]]], [[0, 0]]],
+                  ['upd', ['p', 'y', P], []], ['upd', ['p', 'y', []], []], ['ext', ['p', 'y', P], []],
+                  ['ior', ['p', 'y', [[1, 3], [3, 3], [1, 2]]]], ['new', ['p', 'y', P], []]):
+            H.append([X, ['add', 0, 0], X])
+            H.append([base] + [X, ['poplast', 0, 1], ['add', 3, 1]] * 3 + [['popitem']])
+        H.append([base] + [['rej', w] for w in REJECTS] + [['add', 0, 1]] + [['rej', w] for w in REJECTS])
+        H.append([['rej', w] for w in REJECTS])
+        for ks in ([0, 1, 0, 3, 0], [], [2], [1, 1, 1]):
+            H.append([base, ['fk', ks, 2], ['add', 0, 1], ['poplast', 0, 0], ['fk', ks, -1], ['eq', ['t']]])
         # caller-supplied defaults (falsy ones included) for every method that takes one, on absent and present keys
         D = [['pop', 3, 1], ['poplast', 3, 1], ['popall', 3, 1], ['poplast', -1, 1]]
         H.append(D * 4)
@@ -877,7 +944,7 @@ class C01(Property):
 
     @staticmethod
     def _aborts(E):
-        return E is not None and E[0] == 'p' and E[1] == 'x'
+        return E is not None and ((E[0] == 'p' and E[1] in ('x', 'y')) or E[0] == 'mx')
 
     def line(self, case):
         toks = [str(NK)]
@@ -885,8 +952,9 @@ class C01(Property):
             o = op[0]
             if o in ('new', 'upd', 'ext', 'ior') and self._aborts(op[1]):
                 # the argument iterable raises after its pairs: keyword arguments are never reached
-                toks.append({'new': 'newx', 'upd': 'updx:', 'ior': 'updx:', 'ext': 'extx:'}[o]
-                            + ('' if o == 'new' else self._pairs_tok(op[1][2])))
+                mx = op[1][0] == 'mx'
+                toks.append({'new': 'newx', 'upd': 'updmx:' if mx else 'updx:', 'ior': 'updmx:' if mx else 'updx:',
+                             'ext': 'extx:'}[o] + ('' if o == 'new' else self._pairs_tok(op[1][-1])))
             elif o == 'new':
                 toks.append('new:%s:%s' % (self._arg_tok(op[1]), self._pairs_tok(op[2])))
             elif o in ('add', 'set'):
@@ -907,6 +975,10 @@ class C01(Property):
                 toks.append('poplast:%s:%d' % ('-' if op[1] < 0 else op[1], op[2]))
             elif o in ('popitem', 'clear', 'swap'):
                 toks.append(o)
+            elif o == 'rej':
+                toks.append('rej')
+            elif o == 'fk':
+                toks.append('fk:%s:%d' % (','.join(map(str, op[1])) or '-', NONE_V if op[2] < 0 else op[2]))
             elif o == 'cp':
                 toks.append('cpt' if op[2] == 't' else 'cps')
             elif o == 'eq':
@@ -934,6 +1006,9 @@ class C01(Property):
             return cx.omd_class(cls, _classes())(cx.pairs(E[1]))
         if kind == 'm':
             return cx.mapping(cx.pairs(E[1]))
+        if kind == 'mx':
+            cx.n += 1
+            return RaisingMapping(cx.pairs(E[1]), ('never', 'a key'), cx.n % 2)
         if kind == 'x':
             return {'l': lambda: list(s.items(multi=True)), 'n': lambda: None, 'i': lambda: 5,
                     'td': lambda: s.todict()}[E[1]]()
@@ -949,6 +1024,9 @@ class C01(Property):
             return iter(ps)
         if pk == 'x':
             return _raising(ps)
+        if pk == 'y':                   # a malformed item after the well-formed ones; what follows is never reached
+            cx.n += 1
+            return ps + [MALFORMED[cx.n % len(MALFORMED)](), (cx.K(0), cx.V(0))]
         return zip([p[0] for p in ps], [p[1] for p in ps])
 
     @staticmethod
@@ -1075,6 +1153,17 @@ class C01(Property):
                     return ['KV', cx.kid(r[0]), cx.vid(r[1])], s, t
                 elif o == 'clear':
                     r = s.clear()
+                elif o == 'rej':
+                    self._rejected_call(cx, cls, s, op[1])
+                    return ['RA'], s, t      # accepted after all: also fine as long as nothing changed
+                elif o == 'fk':
+                    cx.n += 1
+                    ks = [cx.K(k) for k in op[1]]
+                    ks = [ks, iter(ks), tuple(ks), (k for k in ks)][cx.n % 4]
+                    c = cls.fromkeys(ks) if op[2] < 0 else cls.fromkeys(ks, cx.V(op[2]))
+                    if type(c) is not cls:
+                        return ['?', 'fromkeys gave %s' % type(c).__name__], s, t
+                    return ['N'], c, t
                 elif o == 'swap':
                     return ['N'], t, s
                 elif o == 'cp':
@@ -1119,6 +1208,46 @@ class C01(Property):
             raise
         except Exception as e:
             return ['X', exc_name(e)], s, t
+
+    @staticmethod
+    def _rejected_call(cx, cls, s, what):
+        """calls whose argument is outside the domain in a way the FIRST statement that looks at it notices"""
+        cx.n += 1
+        bad = [[], {}, [1, 2], set()][cx.n % 4]            # unhashable keys
+        if what == 'add':
+            s.add(bad, cx.V(0))
+        elif what == 'set':
+            s[bad] = cx.V(0)
+        elif what == 'del':
+            del s[bad]
+        elif what == 'addlist':
+            s.addlist(bad, [cx.V(0), cx.V(1)])
+        elif what == 'addlist_int':
+            s.addlist(cx.K(0), 5)
+        elif what == 'pop':
+            s.pop(bad, None)
+        elif what == 'popall':
+            s.popall(bad, None)
+        elif what == 'poplast':
+            s.poplast(bad, None)
+        elif what == 'sd':
+            s.setdefault(bad, cx.V(0))
+        elif what == 'upd_none':
+            s.update(None)
+        elif what == 'upd_int':
+            s.update(5)
+        elif what == 'ext_none':
+            s.update_extend(None)
+        elif what == 'ext_int':
+            s.update_extend(5)
+        elif what == 'ior_int':
+            s |= 5
+        elif what == 'new2':
+            cls([(cx.K(0), cx.V(0))], [(cx.K(1), cx.V(1))])
+        elif what == 'upd_pairs_unhashable_first':
+            s.update([(bad, cx.V(0)), (cx.K(0), cx.V(0))])
+        else:
+            raise common.InfraError('unknown rejected call %r' % (what,))
 
     def _newomd(self, cx, cls, s, r):
         if type(r) is not cls or r is s:
@@ -1200,6 +1329,20 @@ class C01(Property):
         d['gld'] = [rd(lambda: (lambda r: 'D' if r is cx.dflt else [cx.vid(v) for v in r])(s.getlist(p, cx.D())))
                     for p in probes]
         d['bool'] = rd(lambda: int(bool(s)))
+        # the view objects: made ONCE per dictionary object and kept, so every later dump reads an old view of a
+        # dictionary that has changed since
+        vs_ = cx.views.get(id(s))
+        if vs_ is None or vs_[0] is not s:
+            vs_ = cx.views[id(s)] = (s, rd(s.viewkeys), rd(s.viewvalues), rd(s.viewitems))
+        _, vk, vv, vi = vs_
+        vforms = [VAL_FORMS[cx.u][v][-1] for v in range(5)]
+        d['vk'] = rd(lambda: [cx.kid(k) for k in vk])
+        d['vl'] = rd(lambda: [len(vk), len(vv), len(vi)])
+        d['vv'] = rd(lambda: [cx.vid(v) for v in vv])
+        d['vi'] = rd(lambda: cx.kv(vi))
+        d['vc'] = rd(lambda: [int(p in vk) for p in probes])
+        d['vic'] = rd(lambda: [[int((p, v) in vi) for v in vforms] for p in probes])
+        d['vvc'] = rd(lambda: [int(v in vv) for v in vforms])
         d['repr'] = rd(lambda: int(repr(s) == '%s([%s])' % (type(s).__name__, ', '.join(
             repr((k, v)) for k, v in s.items(multi=True)))))
         d['cnt'] = rd(lambda: type(s.counts()) is type(s))
@@ -1237,6 +1380,8 @@ class C01(Property):
             tag = r[0]
             if tag in ('N', 'D'):
                 rt = tag
+            elif tag == 'RA':
+                rt = 'XReject'
             elif tag == 'V':
                 rt = 'V%s' % r[1]
             elif tag == 'L':
@@ -1244,9 +1389,9 @@ class C01(Property):
             elif tag == 'KV':
                 rt = 'KV%s.%s' % (r[1], r[2])
             elif tag == 'X':
-                rt = 'X' + r[1]
+                rt = 'X' + self._canon_exc(case['ops'][len(recs)] if len(recs) < len(case['ops']) else None, r[1])
             elif tag == 'B':
-                rt = 'B%d%d' % (r[1], r[2])
+                rt = 'B%d%d%d%d' % (r[1], r[2], r[3], r[4])
             elif tag == 'O':
                 rt = 'O%s|%s|%d' % (self._pairs(r[1]), self._nats(r[2]), r[3])
             else:
@@ -1270,9 +1415,24 @@ class C01(Property):
                 f += ['IV!' + d['inv']['!'], 'IK', 'IL']
             else:
                 f += ['IV' + self._pairs(d['inv'][0]), 'IK' + self._nats(d['inv'][1]), 'IL%d' % d['inv'][2]]
+            bits = lambda l: ''.join(str(x) for x in l)
+            f += ['VK' + e(d['vk'], self._nats),
+                  'VL' + e(d['vl'], lambda l: str(l[0]) if l[0] == l[1] == l[2] else '?%r' % (l,)),
+                  'VV' + e(d['vv'], self._nats), 'VI' + e(d['vi'], self._pairs), 'VC' + e(d['vc'], bits),
+                  'VIC' + e(d['vic'], lambda ll: ''.join(bits(l) for l in ll)), 'VVC' + e(d['vvc'], bits)]
             f.append('T' + e(d['t'], self._pairs))
             recs.append(' '.join(f))
         return ';'.join(recs)
+
+    def _canon_exc(self, op, name):
+        """the statement does not say WHICH exception a malformed item or an argument outside the domain raises:
+        for those operations TypeError / ValueError are one observation (the model has one `abort` / `rejected`)"""
+        if op is not None and op[0] == 'rej':
+            return 'Reject'
+        if op is not None and name in ('TypeError', 'ValueError'):
+            if op[0] in ('new', 'upd', 'ior', 'ext') and op[1] is not None and op[1][0] == 'p' and op[1][1] == 'y':
+                return 'Boom'
+        return name
 
     # ------------------------------------------------------------------ oracle: two plain lists of pairs
     @staticmethod
@@ -1336,11 +1496,23 @@ class C01(Property):
                 # the exception of the argument iterable propagates; how much of the argument was taken over
                 # before is not prescribed (any prefix), but the dictionary must be consistent afterwards
                 exp = ['X', 'Boom']
-                ps = [tuple(p) for p in op[1][2]]
+                ps = [tuple(p) for p in op[1][-1]]
+                if op[1][0] == 'p' and op[1][1] == 'y':
+                    # a malformed item: some TypeError / ValueError (which one is not prescribed)
+                    exp_fn = lambda ret: None if ret in (['X', 'TypeError'], ['X', 'ValueError']) else \
+                        'a malformed item was answered with %r' % (ret,)
                 if name == 'new':
                     cands = [L]    # no object was constructed: `s` is still the old dictionary
                 elif name == 'ext':
                     cands = [L + ps[:j] for j in range(len(ps), -1, -1)]
+                elif op[1][0] == 'mx':
+                    cands = []
+                    for j in range(len(ps), -1, -1):
+                        c = L
+                        for k, v in ps[:j]:
+                            c = self._assign(c, k, v)
+                        cands.append(c)
+                    removed = True
                 else:
                     cands = [self._replace_by(L, ps[:j]) for j in range(len(ps), -1, -1)]
                     removed = True
@@ -1430,6 +1602,11 @@ class C01(Property):
                     removed = True
             elif name == 'clear':
                 L = []
+            elif name == 'rej':
+                # outside the domain of the statement: any exception (or none) is fine, the pairs must stay as they are
+                exp_fn = lambda ret: None if ret[0] in ('X', 'RA') else 'a call outside the domain returned %r' % (ret,)
+            elif name == 'fk':
+                L = [(k, NONE_V if op[2] < 0 else op[2]) for k in op[1]]
             elif name == 'swap':
                 L, T = T, L
             elif name == 'cp':
@@ -1516,6 +1693,10 @@ class C01(Property):
             'g0': [last.get(k, NONE_V) for k in range(NK)],
             'gld': [self._vals_of(L, k) if k in last else 'D' for k in range(NK)],
             'bool': int(bool(L)), 'repr': 1, 'cnt': True, 'eqself': [1, 0],
+            'vk': keys, 'vl': [len(keys)] * 3, 'vv': [last[k] for k in keys], 'vi': items,
+            'vc': [int(k in last) for k in range(NK)],
+            'vic': [[int(k in last and last[k] == v) for v in range(5)] for k in range(NK)],
+            'vvc': [int(v in last.values()) for v in range(5)],
         }
         tkeys = self._keys(T)
         exp['t2'] = [len(tkeys), tkeys, [self._vals_of(T, k) for k in range(NK)],
@@ -1544,7 +1725,7 @@ class C01(Property):
             yield dict(case, u='S')
         for i, op in enumerate(ops):
             # shrink pair lists / value lists inside arguments
-            if op[0] in ('upd', 'ext', 'new', 'ior', 'eq') and op[1] is not None and op[1][0] in ('o', 'm', 'p'):
+            if op[0] in ('upd', 'ext', 'new', 'ior', 'eq') and op[1] is not None and op[1][0] in ('o', 'm', 'p', 'mx'):
                 E = op[1]
                 ps = E[-1]
                 for j in range(len(ps)):
